@@ -26,3 +26,10 @@ C10 (harness/c10_thdm_limits.cpp), calibration: ./vcheck C10 --scale 5 (85 691 c
   SM-limit, helper level: worst 3.4e-11 (1L), 5.2e-12 (fermionic) of max(|a|, light-Higgs term); limit 1e-9.
 C09 (harness/c09_thdm_param.cpp): see the comment at TOL_A/TOL_B/TOL_F there (6e5 pairs).
 """
+
+# ---- bounds on known-finding keys (a failure beyond them gets the plain key and is a violation)
+# C02 Phi small-ratio series: err * (lambda^2/z^2)^2 <= 1e-7   (worst observed 6.2e-9 over 1.28e6 cases, seeds 5 and 6; 1.6e6 at thorough seed 2 silent)
+# C02 FPZ/FSZ equal arguments near 1/4: err <= 2e-3            (worst observed 1.3e-4 / 8.8e-5 over 1.6e6 cases)
+# C01 F1/F2/f_sferm large-x cancellation: err <= 0.05          (worst observed 1.5e-3 over 2e6 cases)
+# C03 electron loop: deviation equals the dropped F2C terms to 1e-8 of the term sum
+# C05 Yukawa lag: under repeated conversion the miss falls below max(10 goal, 1e-3 miss); miss <= 0.5 m_smuon
